@@ -141,7 +141,7 @@ Fixpoint wf (t : ty) : bool :=
   | TVar ts => forallb wf ts && (nlen ts <? 2147483648)
   | THnd _ tk tag => in_range tk tag
   | TTab hash es =>
-      forallb (fun e => wf (snd e)) es && (hash <? two64) &&
+      forallb (fun e => wf (snd e)) es && (hash <? two64) && (nlen es <? two64) &&
       forallb (fun e => fst (fst e) <? two64) es &&
       nodup_ids (map (fun e => fst (fst e)) es)
   end.
